@@ -1583,6 +1583,8 @@ struct FnTr {
     buf: Option<String>,
     /// external functions taken as parameters of the generated definition (path -> Lean name)
     externs: BTreeMap<String, String>,
+    /// methods of values of an external type, taken as parameters too (method -> (Lean name, Rust return type))
+    extern_methods: BTreeMap<String, (String, String)>,
 }
 
 impl FnTr {
@@ -1670,6 +1672,12 @@ impl FnTr {
                 let args: FR<Vec<(String, String)>> = m.args.iter().map(|a| self.expr(a, env)).collect();
                 let args = args?;
                 let name = m.method.to_string();
+                if tr == "extern" {
+                    let (lname, ret) = self.extern_methods.get(&name).ok_or_else(|| format!("method {name} of an external type"))?;
+                    let mut all = vec![r.clone()];
+                    all.extend(args.iter().map(|a| a.0.clone()));
+                    return Ok((format!("({lname} {})", all.join(" ")), ret.clone()));
+                }
                 match (name.as_str(), args.as_slice()) {
                     ("as_nanos", []) if tr == "Duration" => Ok((r, "u128".into())),
                     ("len", []) if tr == "BytesMut" => Ok((format!("{r}.length"), "usize".into())),
@@ -1846,9 +1854,9 @@ impl FnTr {
                     }
                     // let x = call(..)?;
                     if let Expr::Try(tr) = &*init.expr {
-                        let (v, _) = self.expr(&tr.expr, env)?;
+                        let (v, tv) = self.expr(&tr.expr, env)?;
                         let mut e2 = env.clone();
-                        e2.insert(name.clone(), "?".into());
+                        e2.insert(name.clone(), tv.strip_prefix("Result<").map(|x| x.trim_end_matches('>').to_string()).unwrap_or("?".into()));
                         let (k, t) = self.stmts(rest, &e2, ret)?;
                         return Ok((format!("(match {v} with\n  | .err e => .err e\n  | .panic p => .panic p\n  | .ok {name} => {k})"), t));
                     }
@@ -1857,15 +1865,17 @@ impl FnTr {
                         if matches!(&*m.receiver, Expr::Path(p) if p.path.is_ident(buf)) {
                             let args: FR<Vec<(String, String)>> = m.args.iter().map(|a| self.expr(a, env)).collect();
                             let args = args?;
-                            let (op, ty) = match (m.method.to_string().as_str(), args.len()) {
-                                ("get_u8", 0) => (format!("Rs.getU8 {buf}"), "u8"),
-                                ("split_to", 1) => (format!("Rs.splitTo {buf} {}", args[0].0), "BytesMut"),
-                                _ => return Err(format!("buffer method {}", m.method)),
+                            let op_ty = match (m.method.to_string().as_str(), args.len()) {
+                                ("get_u8", 0) => Some((format!("Rs.getU8 {buf}"), "u8")),
+                                ("split_to", 1) => Some((format!("Rs.splitTo {buf} {}", args[0].0), "BytesMut")),
+                                _ => None,   // a method that only looks (`len`): an ordinary expression
                             };
-                            let mut e2 = env.clone();
-                            e2.insert(name.clone(), ty.into());
-                            let (k, t) = self.stmts(rest, &e2, ret)?;
-                            return Ok((format!("(match {op} with\n  | none => .panic \"{}\"\n  | some ({name}, {buf}) => {k})", m.method), t));
+                            if let Some((op, ty)) = op_ty {
+                                let mut e2 = env.clone();
+                                e2.insert(name.clone(), ty.into());
+                                let (k, t) = self.stmts(rest, &e2, ret)?;
+                                return Ok((format!("(match {op} with\n  | none => .panic \"{}\"\n  | some ({name}, {buf}) => {k})", m.method), t));
+                            }
                         }
                     }
                 }
@@ -1919,13 +1929,26 @@ impl FnTr {
                         Expr::Try(tr) => {
                             let (v, _) = self.expr(&tr.expr, env)?;
                             let (k, t) = self.stmts(rest, env, ret)?;
-                            return Ok((format!("(match {v} with\n  | .err e => .err e\n  | .panic p => .panic p\n  | .ok _ => {k})"), t));
+                            // a call that is handed the buffer gives it back changed
+                            let threads = match &*tr.expr {
+                                Expr::MethodCall(m) => m.args.iter().any(|a| matches!(a, Expr::Path(p) if p.path.is_ident(buf))),
+                                Expr::Call(c) => c.args.iter().any(|a| matches!(a, Expr::Path(p) if p.path.is_ident(buf))),
+                                _ => false,
+                            };
+                            let okp = if threads { format!("(_, {buf})") } else { "_".to_string() };
+                            return Ok((format!("(match {v} with\n  | .err e => .err e\n  | .panic p => .panic p\n  | .ok {okp} => {k})"), t));
                         }
                         Expr::MethodCall(m) => {
                             let recv = match &*m.receiver { Expr::Path(p) => p.path.get_ident().map(|i| i.to_string()), _ => None }.ok_or("method statement")?;
                             let name = m.method.to_string();
                             // buf.reserve(n): capacity only, the contents do not change
                             if recv == *buf && name == "reserve" { return self.stmts(rest, env, ret); }
+                            if recv == *buf && (name == "put_u64" || name == "put_u8") && m.args.len() == 1 {
+                                let (v, _) = self.expr(&m.args[0], env)?;
+                                let (k, t) = self.stmts(rest, env, ret)?;
+                                let op = if name == "put_u64" { "Rs.putU64" } else { "Rs.putU8" };
+                                return Ok((format!("(let {buf} := {op} {buf} {v};\n  {k})"), t));
+                            }
                             if recv == *buf && name == "advance" && m.args.len() == 1 {
                                 let (n, _) = self.expr(&m.args[0], env)?;
                                 let (k, t) = self.stmts(rest, env, ret)?;
@@ -2015,7 +2038,7 @@ fn collect_local_consts(b: &syn::Block, m: &mut BTreeMap<String, Expr>) {
 fn gen_backoff_fn(repo: &Path, g: &mut Gen) -> FR<()> {
     let rel = "client/src/keep_alive/backoff_strategy.rs";
     let src = Src::load(repo, rel).map_err(|s| s.0)?;
-    let mut tr = FnTr { consts: src.consts(), structs: BTreeMap::new(), enums: BTreeMap::new(), fns: BTreeMap::new(), self_ty: None, self_reads: Default::default(), buf: None, externs: BTreeMap::new() };
+    let mut tr = FnTr { consts: src.consts(), structs: BTreeMap::new(), enums: BTreeMap::new(), fns: BTreeMap::new(), self_ty: None, self_reads: Default::default(), buf: None, externs: BTreeMap::new(), extern_methods: BTreeMap::new() };
     let mut free: BTreeMap<String, syn::ItemFn> = BTreeMap::new();
     for it in &src.ast.items {
         match it {
@@ -2087,7 +2110,7 @@ fn gen_codec_fn(repo: &Path, g: &mut Gen) -> FR<()> {
     let rel = "protocol/src/codec.rs";
     let src = Src::load(repo, rel).map_err(|s| s.0)?;
     let mut tr = FnTr { consts: src.consts(), structs: BTreeMap::new(), enums: BTreeMap::new(), fns: BTreeMap::new(), self_ty: None,
-                        self_reads: Default::default(), buf: Some("src".into()), externs: BTreeMap::new() };
+                        self_reads: Default::default(), buf: Some("src".into()), externs: BTreeMap::new(), extern_methods: BTreeMap::new() };
     tr.externs.insert("Frame::try_from".into(), "frameTryFrom".into());
     let mut out = String::new();
     // free function validate_payload_length(length: u64) -> Result<(), _>
@@ -2118,6 +2141,30 @@ fn gen_codec_fn(repo: &Path, g: &mut Gen) -> FR<()> {
     let b2 = bufname.clone();
     let (body, _) = tr.stmts(&dec.block.stmts, &env, &move |v| format!("(Rs.Out.withState {v} {b2})"))?;
     let _ = writeln!(out, "/-- `<MessageCodec as Decoder>::decode(&mut self, {bufname}: &mut BytesMut)`: the result and what is left in `{bufname}`.\n    `frameTryFrom` is `Frame::try_from((message_type, bytes))` (modelled in `Wire/Frame.lean` from the generated tables). -/\ndef decode {{F : Type}} (frameTryFrom : Nat → List UInt8 → Rs.Out F) ({bufname} : List UInt8) : Rs.Out (Option F × List UInt8) :=\n  {body}");
+    // <MessageCodec as Encoder<Frame>>::encode(&mut self, item: Frame, dst: &mut BytesMut)
+    let enc = find_method(&src.ast, "MessageCodec", "encode", Some("Encoder")).ok_or("`impl Encoder<Frame> for MessageCodec` has no fn encode")?;
+    let mut env = FEnv::new();
+    let mut ebuf = None;
+    let mut item = None;
+    for a in &enc.sig.inputs {
+        if let syn::FnArg::Typed(pt) = a {
+            let n = match &*pt.pat { Pat::Ident(i) => i.ident.to_string(), _ => return Err("parameter pattern".into()) };
+            match ty_str(&pt.ty).as_str() {
+                "&mutBytesMut" => { env.insert(n.clone(), "BytesMut".into()); ebuf = Some(n); }
+                "Frame" => { env.insert(n.clone(), "extern".into()); item = Some(n); }
+                other => return Err(format!("encode takes a {other}")),
+            }
+        }
+    }
+    let ebuf = ebuf.ok_or("encode has no `&mut BytesMut` parameter")?;
+    let item = item.ok_or("encode has no `Frame` parameter")?;
+    tr.buf = Some(ebuf.clone());
+    tr.extern_methods.insert("get_length".into(), ("frameGetLength".into(), "Result<u64>".into()));
+    tr.extern_methods.insert("get_type".into(), ("frameGetType".into(), "u8".into()));
+    tr.extern_methods.insert("write_to_bytes".into(), ("frameWriteToBytes".into(), "Result<()>".into()));
+    let b3 = ebuf.clone();
+    let (body, _) = tr.stmts(&enc.block.stmts, &env, &move |v| format!("(Rs.Out.withState {v} {b3})"))?;
+    let _ = writeln!(out, "\n/-- `<MessageCodec as Encoder<Frame>>::encode(&mut self, {item}: Frame, {ebuf}: &mut BytesMut)`: the result and the new contents of `{ebuf}`.\n    `frameGetLength` / `frameGetType` / `frameWriteToBytes` are `Frame::{{get_length, get_type, write_to_bytes}}` (modelled in `Wire/Frame.lean`). -/\ndef encode {{F : Type}} (frameGetLength : F → Rs.Out Nat) (frameGetType : F → Nat) (frameWriteToBytes : F → List UInt8 → Rs.Out (Unit × List UInt8))\n    ({item} : F) ({ebuf} : List UInt8) : Rs.Out (Unit × List UInt8) :=\n  {body}");
     g.emit_with_imports("CodecFn", &["SeliumModel.Rs"], &[rel], &format!("open Selium\n\n{out}"));
     Ok(())
 }
